@@ -58,6 +58,9 @@ type Case struct {
 	Holder   gen.Step     `json:"holder"`
 	// WithStart: the schema has the predefined Start state, active when the trigger fires, with StartEnd/StartExit handlers bound
 	WithStart bool `json:"with_start,omitempty"`
+	// DisposingState: the schema has the Disposing/Disposed states of the DisposedStates mixin but nothing
+	// handles them (the handler loop then adds Disposing on a parent cancel and disposes after a grace period)
+	DisposingState bool `json:"disposing_state,omitempty"`
 }
 
 func (c Case) key() string { b, _ := json.Marshal(c); return string(b) }
@@ -126,6 +129,9 @@ func runCase(c Case, st *ev.Stats) error {
 	helper := c.Trigger == "helper"
 	if c.WithStart && !helper {
 		sc.States = append(sc.States, gen.StateDef{Name: am.StateStart})
+	}
+	if c.DisposingState && !helper {
+		sc.States = append(sc.States, gen.StateDef{Name: ssam.DisposedStates.Disposing}, gen.StateDef{Name: ssam.DisposedStates.Disposed})
 	}
 	var run *rec.Run
 	var err error
@@ -377,6 +383,8 @@ func runCase(c Case, st *ev.Stats) error {
 				func() { amhelp.AskRemove(m, am.S{"Y"}, nil) },
 				func() { m.CanAdd(am.S{"Z"}, nil) },
 				func() { m.Add1("Z", nil) },
+				func() { m.Eval("c13held", func() {}, context.Background()) },
+				func() { m.Eval("c13held-live", func() {}, live) },
 			}
 			n := 1 + c.At%len(helpers)
 			for i := 0; i < n; i++ {
@@ -676,6 +684,7 @@ func genCase(t *rapid.T) Case {
 	case "during":
 		c.Gate = rapid.SampledFrom([]string{"dispose.entry", "dispose.afterQueueWait", "dispose.afterDisposedCas", "dispose.beforeSubs", "dispose.beforeWhenDisposed"}).Draw(t, "stage")
 	}
+	c.DisposingState = c.Trigger != "helper" && rapid.IntRange(0, 2).Draw(t, "disposingState") == 0
 	c.OnDisp = rapid.IntRange(0, 3).Draw(t, "onDispose")
 	ns := rapid.IntRange(0, 8).Draw(t, "nsubs")
 	perm := rapid.Permutation(allSubs).Draw(t, "subs")
